@@ -1,12 +1,12 @@
-\* C18 thorough (model checking only, TraceparentFilter alone): 2 threads, <= 3 spans, <= 4 frames, 1 task, nesting <= 3, headers sampled / unsampled other trace / invalid (no ids), all forms.
+\* C18 thorough (model checking only, 2; TraceparentFilter alone): 2 threads, <= 2 spans, <= 3 frames, 1 task, nesting <= 2, all seven headers (same trace / other caller span, other trace, both invalid kinds), all forms.
 SPECIFICATION Spec
 CONSTANTS
     NThreads = 2
-    MaxSpans = 3
-    MaxFrames = 4
+    MaxSpans = 2
+    MaxFrames = 3
     MaxTasks = 1
-    MaxDepth = 3
-    Headers <- MC_Headers3
+    MaxDepth = 2
+    Headers <- MC_HeadersAll
     InSampled = FALSE
     SnapshotOnPush = TRUE
     WithLazy = TRUE
